@@ -314,6 +314,28 @@ def W.attrSpec (fails : Nat → Bool) (w : W) : AttrSpec → W
 def writeDoc (fails : Nat → Bool) (nl : Bool) (d : Doc) : W :=
   d.foldl (fun w l => l.2.foldl (W.attrSpec fails) (w.link fails l.1)) (W.new nl)
 
+/-! the writer as the API it is: any sequence of `link`, attribute calls and `set_add_newlines`
+(the real API only allows the latter between links – the model allows it anywhere) -/
+inductive WOp where
+  | link (target : List Char)
+  | attr (a : AttrSpec)
+  | setNl (b : Bool)
+  deriving DecidableEq, Repr
+
+/-- `set_add_newlines(b)`: changes the flag and nothing else -/
+def W.setNl (w : W) (b : Bool) : W := { w with nl := b }
+
+def W.op (fails : Nat → Bool) (w : W) : WOp → W
+  | .link t => w.link fails t
+  | .attr a => w.attrSpec fails a
+  | .setNl b => w.setNl b
+
+def writeOps (fails : Nat → Bool) (nl : Bool) (ops : List WOp) : W :=
+  ops.foldl (W.op fails) (W.new nl)
+
+/-- a document as an operation sequence -/
+def Doc.ops (d : Doc) : List WOp := d.flatMap (fun l => WOp.link l.1 :: l.2.map WOp.attr)
+
 /-- `finish()`: `true` = Ok -/
 def W.finish (w : W) : Bool := !w.error
 
